@@ -16,18 +16,26 @@ if [ ! -x $V/.bin/instrument ] || [ -n "$(find $V/instrument -newer $V/.bin/inst
 fi
 # hash of the tree under test + of the harness sources
 H=$( (cd $REPO && find . -path ./examples -prune -o -path ./e2e -prune -o \( -name '*.go' -o -name go.mod -o -name go.sum \) -type f -print0 | sort -z | xargs -0 sha256sum; \
-      cd $V && find engine harness instrument -name '*.go' -type f -print0 | sort -z | xargs -0 sha256sum) | sha256sum | cut -c1-16)
+      cd $V && find engine harness instrument -name '*.go' -type f -print0 | sort -z | xargs -0 sha256sum; echo $REPO) | sha256sum | cut -c1-16)
 W=$V/.work/$H
+[ "$REPO" != /repo ] && W=$V/.work/scratch-$H   # builds for scratch copies are removed by whoever made the copy
 if [ ! -f $W/overlay.json ]; then
   # drop stale generations (keep disk small)
-  for d in $V/.work/[0-9a-f][0-9a-f][0-9a-f][0-9a-f][0-9a-f][0-9a-f][0-9a-f][0-9a-f][0-9a-f][0-9a-f][0-9a-f][0-9a-f][0-9a-f][0-9a-f][0-9a-f][0-9a-f]/; do [ "$d" != "$W/" ] && rm -rf "$d"; done 2>/dev/null
+  [ "$REPO" = /repo ] && for d in $V/.work/[0-9a-f][0-9a-f][0-9a-f][0-9a-f][0-9a-f][0-9a-f][0-9a-f][0-9a-f][0-9a-f][0-9a-f][0-9a-f][0-9a-f][0-9a-f][0-9a-f][0-9a-f][0-9a-f]/; do [ "$d" != "$W/" ] && rm -rf "$d"; done 2>/dev/null
   mkdir -p $W
   $V/.bin/instrument -repo $REPO -out $W >&2 || { echo "HARNESS-BROKEN instrumentation failed" >&2; rm -f $W/overlay.json; exit 2; }
 fi
 BIN=$W/vcheck
 RACEFLAG=""
 if [ "$FLAVOUR" = race ]; then BIN=$W/vcheck-race; RACEFLAG="-race"; fi
+MODFLAG=""
+if [ "$REPO" != /repo ]; then
+  # a scratch copy of the repository (seed tests, background runs): same module graph, other replace target
+  sed "s#=> /repo\$#=> $REPO#" $V/harness/go.mod > $W/harness.go.mod
+  cp $V/harness/go.sum $W/harness.go.sum 2>/dev/null
+  MODFLAG="-modfile=$W/harness.go.mod"
+fi
 if [ ! -x $BIN ]; then
-  (cd $V/harness && go build $RACEFLAG -tags verif -overlay $W/overlay.json -o $BIN ./cmd/vcheck) >&2 || { echo "HARNESS-BROKEN build of the instrumented library/harness failed" >&2; exit 2; }
+  (cd $V/harness && go build $MODFLAG $RACEFLAG -tags verif -overlay $W/overlay.json -o $BIN ./cmd/vcheck) >&2 || { echo "HARNESS-BROKEN build of the instrumented library/harness failed" >&2; exit 2; }
 fi
 echo $W
